@@ -87,9 +87,11 @@ def judge(c):
     a = c.answer
     if a is None or "bad" in a:
         return None
-    for i, (ex, de) in enumerate(zip(a["exec"], a["denote"])):
+    for i, (ex, de) in enumerate(zip(cgroup.exec_outcomes(c), a["denote"])):
         ok, why = cgroup.same_outcome(ex, de)
         if not ok:
+            if str(ex.get("fault", "")).startswith("does-not-compile"):
+                return {"what": "the generated per-event code does not compile (g++ against the mock of the declared data model)", "observed": {"errors": ex.get("errors"), "body": r["query"]}}
             if cgroup.fault_class(ex) == "stuck" and ex["fault"].startswith("stuck:opaque"):
                 return {"kind": "broken", "what": "emitted line not recognised by the statement parser", "observed": r["query"]}
             return {
@@ -99,7 +101,7 @@ def judge(c):
     return None
 
 
-_P = CompilerProp(ID, gen, judge, 210, 2400)
+_P = CompilerProp(ID, gen, judge, 210, 2400, use_gxx=True)
 
 
 # ---------------------------------------------------------------- text tie of the Gen model
